@@ -9,7 +9,7 @@ void harness(void)
 {
 	IN(size_t, in_size); IN(size_t, in_used); IN(uintptr_t, in_refs); IN(int, in_flags); IN(int, in_typed);
 	IN(int, in_init_fails); IN(int, in_alloc_fails); IN(size_t, in_k);
-	uint8_t in_content[BCAP], in_src[BCAP]; const uint8_t *src_ = in_src;
+	uint8_t in_content[BCAP], in_src[BCAP]; const uint8_t *src_ = in_src; V_FILL(in_content); V_FILL(in_src);
 	MPT_STRUCT(buffer) *b0 = &h_b0.b; size_t i, oused; uint8_t ok_ = 0; int r_ins = 0; size_t ins_pos = 0, ins_len = 0;
 	V_REQ(in_size <= BCAP && in_used <= in_size && in_refs >= 1 && in_refs <= 2 && (in_flags & ~3) == 0);
 	V_REQ(IMP(in_typed, in_used % ESZ == 0));
